@@ -83,6 +83,7 @@ struct Op
     bool dirty_bufs = false;
     bool misaligned_bufs = false; // caller buffers aligned to 8 bytes only (8 mod 16)
     bool adjacent_bufs = false;   // source, destination and scratch carved out of one allocation (they touch)
+    int host_team = 0;            // > 1: the call is made by every member of an application parallel region of that size, each on its own buffers (MERKLE, PARCPY, PARSETZERO)
     bool main_first = false; // simulated execution before the one-member reference (cold-start runs)
     uint64_t garbage_seed = 0;
     std::vector<sim::Switch> schedule; // explicit (ST_REPLAY)
